@@ -18,14 +18,19 @@ var salt = []byte{
 	187, 249, 232, 193, 41, 113, 41, 45, 240, 16, 29, 228, 208, 228, 61, 20,
 }
 
-// Response computes the 8 digit answer.
-func Response(challenge, password string) string {
+// Value is the 30 bit integer the answer is taken from (0 .. 1073741823: up to ten decimal digits, fewer than eight
+// for about one challenge in a hundred).
+func Value(challenge, password string) uint32 {
 	h := md5.New()
 	h.Write([]byte(challenge))
 	h.Write([]byte(password))
 	h.Write(salt)
 	sum := h.Sum(nil)
-	v := binary.LittleEndian.Uint32(sum[:4]) & 0x3fffffff
-	s := fmt.Sprintf("%08d", v)
+	return binary.LittleEndian.Uint32(sum[:4]) & 0x3fffffff
+}
+
+// Response computes the 8 digit answer.
+func Response(challenge, password string) string {
+	s := fmt.Sprintf("%08d", Value(challenge, password))
 	return s[len(s)-8:]
 }
